@@ -152,9 +152,12 @@ func runC13Hist(t *testing.T, c CacheHistCase) (*h.Violation, h.Info) {
 			}
 			// a new store from these bytes with the service unreachable serves exactly those values
 			dead := fake.NewSvc()
-			st2, err := setec.NewStore(context.Background(), setec.StoreConfig{Client: dead, Secrets: append([]string{}, declared...), AllowLookup: true, Cache: fake.NewCache(data), PollInterval: -1, Logf: nolog})
+			// (bounded: a store that wrongly decides it must fetch something would retry for ever)
+			bctx, bcancel := context.WithTimeout(context.Background(), 1500*time.Millisecond)
+			st2, err := setec.NewStore(bctx, setec.StoreConfig{Client: dead, Secrets: append([]string{}, declared...), AllowLookup: true, Cache: fake.NewCache(data), PollInterval: -1, Logf: nolog})
+			bcancel()
 			if err != nil {
-				return h.V("restart-from-cache-without-service", "step %d %s: a store started from the cache with the service unreachable failed: %v", step, what, err)
+				return h.V("restart-from-cache-without-service", "step %d %s: a store started from the cache with the service unreachable failed: %v (cache: %q)", step, what, err, data)
 			}
 			for n, e := range doc {
 				hd := st2.Secret(n)
@@ -281,12 +284,10 @@ func runC13Hist(t *testing.T, c CacheHistCase) (*h.Violation, h.Info) {
 			if c.FailRead || len(data) == 0 {
 				known = map[string]*c13model{}
 			} else if doc, err := model.DecodeCacheStrict(data); err == nil {
-				for n := range known {
-					if e, ok := doc[n]; ok {
-						known[n] = &c13model{ver: e.Version, last: e.LastAccess}
-					} else {
-						delete(known, n)
-					}
+				// ... which, after failed writes, may still list a secret this process has dropped since
+				known = map[string]*c13model{}
+				for n, e := range doc {
+					known[n] = &c13model{ver: e.Version, last: e.LastAccess}
 				}
 			}
 			handles = map[string]setec.Secret{}
